@@ -25,7 +25,7 @@ pub struct Case {
     pub case_changes: usize,
 }
 
-const CASE_ONLY: RenderOpts = RenderOpts { alias: false, case: true, noise: false, comments: false, layout: false, crlf: false };
+const CASE_ONLY: RenderOpts = RenderOpts { alias: true, case: true, noise: false, comments: false, layout: false, crlf: false };
 
 fn kind(n: &Name) -> u8 {
     n.key().0
@@ -54,7 +54,7 @@ impl Prop for C15 {
     fn rule(&self) -> String {
         "programs from the control-flow, function/scope/pronoun and array-history generators; every distinct name is mapped injectively to a fresh name of a random kind (simple / common with any of the \
          six prefixes in any case / proper with 2-3 words; ASCII, accented, Greek, Cyrillic letters with one-to-one case mappings), every mention of it gets its own case variation (proper-name words keep their \
-         upper-case initial), and keywords are re-cased independently in both renderings. The two programs must print the same bytes and end alike (same success / same error variant). \
+         upper-case initial), and keywords are re-cased independently in both renderings (every alias of every keyword incl. the glued 's / 're contractions in all their mixed-case forms). The two programs must print the same bytes and end alike (same success / same error variant). \
          non-trivial = at least one name changes kind or one mention changes case, and the program prints something; distinct by program pair"
             .into()
     }
